@@ -4,10 +4,18 @@ CHECKS = {
    "technique": "static effect analysis: table-resolved whole-program call-graph closure + who-may-reference rule on LLVM IR",
    "text": "Sound static data-race-freedom argument: the call-graph closure of the seven re-entrant entry points (indirect calls resolved against the hash table, both library flavours) references no mutable static storage, calls only MT-Safe libc functions, and contains no memory-writing inline asm; hence calls on distinct objects share no writable location. Every (function, global) and (function, external callee) pair is an obligation; all are discharged.",
    "note": "Trusts clang's front end, the irfacts extractor, the MT-Safe allow-list (glibc manual), and the pinned feature configuration (arc4random_buf present). Does not cover the fallback RNG chain of other configure results."},
+ "C18": {"engine": "IRF+TAB", "level": "proof", "ref": "DESIGN.md §4 C18",
+   "technique": "path-complete enumeration of crypt_checksalt over SSA with named branch atoms; table/oracle comparison (compiled hash table vs hashes.conf vs documented strong set)",
+   "text": "All acyclic paths of crypt_checksalt are enumerated (6 today) and the constant each returns is compared with the specification on every completion of its branch atoms, so the INVALID/OK/LEGACY classification is decided for every input string, not sampled. The compiled hash table is compared with hashes.conf and the documented strong set; lookup shadowing, the preferred-method constant and gensalt's NULL-prefix default are decided on the IR.",
+   "note": "Trusts clang, irfacts, the path enumerator's correlated-branch pruning, and that check_badsalt_chars/get_hashfn (shared with do_crypt, checked) implement the character filter and tag lookup (their semantics are under C05/C06). 'crypt succeeds => not INVALID' is via the shared filter, method-level non-emptiness is not decided here."},
+ "C20": {"engine": "WIT+IRF", "level": "proof", "ref": "DESIGN.md §4 C20",
+   "technique": "compile-fail witnesses (_Static_assert, re-declaration) against the regenerated crypt.h + read-back of .symver directives, IR aliases and the generated version script",
+   "text": "Struct size, every field offset/size, every public constant and the nine prototypes are compile-time witnesses against the header regenerated from the working tree (a violated one is a compile error naming the field); the oracle numbers are witnessed against the released header in the image. Every released (symbol, version) pair must be bound by a .symver directive to an external definition, listed global in the regenerated libcrypt.map, all versions of a name bind to one definition, and compat-only names are aliases of the modern functions.",
+   "note": "Trusts clang's constant evaluation, the repo's perl generators as run by the check, GNU ld's version-script semantics, and the frozen released export set (oracles/released_abi.json: image's libcrypt.so.1 united with the pinned full build). Behaviour of setkey/encrypt is under C17."},
 }
 NOT_APPLICABLE = {
  "C16": "numerical equality of MD4/MD5/SHA-1/SHA-2/Streebog/HMAC/PBKDF2 with their standards for every length and chunking quantifies over runtime values; no static argument in reach (no execution, no solver) bounds them. Constants (C02), wipes (C09) and buffer safety (C04) of these files are claimed under those properties instead.",
 }
-for p in ["C01","C02","C03","C04","C05","C06","C07","C09","C10","C11","C12","C13","C14","C15","C17","C18","C19","C20"]:
+for p in ["C01","C02","C03","C04","C05","C06","C07","C09","C10","C11","C12","C13","C14","C15","C17","C19"]:
     NOT_APPLICABLE.setdefault(p, PENDING)
 NOTES = "Technique family: static analysis. Exit codes of every check: 0 held, 1 VIOLATION, 2 ANALYSIS-BROKEN (anchor vanished / instance floor not met / tree does not compile). known_findings.txt lists recorded findings and fixed defects."
